@@ -223,6 +223,13 @@ func runProperty(c *Ctx, p *Property, tier string, findings []Finding) *runResul
 		if st.Floor == 0 && use.Filter == nil {
 			st.Floor = r.Floor
 		}
+		// The floors written next to the rules are the instance counts confirmed by hand on the
+		// pinned tree (rounded down). The guard is against vacuity — an anchor that is no longer
+		// found — not against clean-ups that merge or remove a few instances, so half of the
+		// confirmed count is required.
+		if st.Floor > 1 {
+			st.Floor = (st.Floor + 1) / 2
+		}
 		for _, o := range all {
 			if use.Filter != nil && !use.Filter(o) {
 				continue
